@@ -230,7 +230,7 @@ func (w *c03TWorld) allowN(i, n int, ctx bool, fault int) {
 	// reachable store: the reference bucket decides
 	want := w.model.take(w.sec(), n)
 	w.logf(" i%d.allow(%d)=%s", i, n, tf(got))
-	if alive && (!w.e.reached(p) || w.e.transported(p) || w.e.executed(p) != 1) {
+	if alive && (!w.e.reached(p) || w.e.transported(p) || !w.oneExecution(p)) {
 		w.abort("allowN: breaker/transport interfered (reached=%v transport=%v executions=%d)",
 			w.e.reached(p), w.e.transported(p), w.e.executed(p))
 	}
@@ -243,6 +243,9 @@ func (w *c03TWorld) allowN(i, n int, ctx bool, fault int) {
 			i, n, got, held)
 	}
 	w.st.Class("allow:joint-" + tf(got))
+	if alive {
+		w.flushPending = false
+	}
 	if got {
 		in.granted += n
 		if w.denied && n >= 1 && w.sec() > w.deniedSec {
@@ -316,6 +319,15 @@ func c03NoRecovery(tt *testing.T, st *verifkit.Stats) {
 	st.Flush()
 	fmt.Printf("INCONCLUSIVE: C03 outage: 0 of %d recoveries completed within the wall-clock budget\n", c03RecTried)
 	os.Exit(3)
+}
+
+// loseServer: the reachable server loses its script cache; with its data the shared bucket
+// is a new (full) one.
+func (w *c03TWorld) loseServer(drop bool) {
+	w.lose(drop)
+	if drop {
+		w.model = c03Bucket{rate: w.rate, burst: w.burst}
+	}
 }
 
 // classEpisodes records how far the case spread local grants over outage episodes.
@@ -444,6 +456,16 @@ func (w *c03TWorld) jointActions(pickI *rapid.Generator[int]) map[string]func(*r
 			d := c03DrawAdvance(t, w)
 			w.guard(func() { w.advance(d) })
 		},
+		"lose": func(t *rapid.T) {
+			// restart / replacement / fail-over / SCRIPT FLUSH of the reachable server
+			drop := rapid.IntRange(0, 2).Draw(t, "drop") == 0
+			w.guard(func() {
+				if w.down || w.losses >= 2 {
+					return
+				}
+				w.loseServer(drop)
+			})
+		},
 	}
 }
 
@@ -456,6 +478,7 @@ func TestVerifC03TokenMachine(t *testing.T) {
 		st.Eval()
 		e := c03Server(t)
 		e.mr.FlushAll()
+		e.pad(8) // a lost script cache costs one NOSCRIPT reply, which the client's breaker counts as a failure
 		rate, burst := c03DrawConfig(t, st)
 		k := rapid.IntRange(1, 4).Draw(t, "instances")
 		w := c03NewTWorld(t, st, e, rate, burst, k, c03DrawT0(t))
@@ -525,6 +548,8 @@ func TestVerifC03TokenOutage(t *testing.T) {
 			})
 		}
 		acts["up"] = func(t *rapid.T) {
+			// the server that comes back may be a restarted / replaced one
+			lose := rapid.SampledFrom([]int{0, 0, 1, 1, 2}).Draw(t, "comesBack")
 			w.guard(func() {
 				if !w.down {
 					return
@@ -532,6 +557,9 @@ func TestVerifC03TokenOutage(t *testing.T) {
 				w.down = false
 				e.down.Store(false)
 				w.logf(" UP")
+				if lose > 0 && w.losses < 3 {
+					w.loseServer(lose == 2)
+				}
 				w.waitAlive(w.all())
 			})
 		}
@@ -545,6 +573,7 @@ func TestVerifC03TokenOutage(t *testing.T) {
 				mask int
 				gap  int64
 				ns   []int
+				lose int
 			}
 			plan := make([]ep, eps)
 			for x := range plan {
@@ -552,6 +581,7 @@ func TestVerifC03TokenOutage(t *testing.T) {
 					mask: rapid.IntRange(1, 1<<k-1).Draw(t, "who"),
 					gap:  rapid.SampledFrom([]int64{0, 0, 1, 7, 50, 300, 1000}).Draw(t, "gap"),
 					ns:   rapid.SliceOfN(rapid.SampledFrom([]int{burst, burst, 1, 1, (burst + 1) / 2, 0, burst + 1}), 2, 4).Draw(t, "ns"),
+					lose: rapid.SampledFrom([]int{0, 0, 0, 1, 2}).Draw(t, "comesBack"),
 				}
 			}
 			w.guard(func() {
@@ -574,6 +604,9 @@ func TestVerifC03TokenOutage(t *testing.T) {
 					w.down = false
 					e.down.Store(false)
 					w.logf(" UP")
+					if p.lose > 0 && w.losses < 3 {
+						w.loseServer(p.lose == 2)
+					}
 					w.waitAlive(w.all())
 					w.advance(p.gap)
 				}
@@ -584,7 +617,7 @@ func TestVerifC03TokenOutage(t *testing.T) {
 			i, n := pickI.Draw(t, "inst"), c03DrawN(t, w)
 			fl := rapid.SampledFrom([]int{c03FaultPre, c03FaultPre, c03FaultPost}).Draw(t, "kind")
 			w.guard(func() {
-				if w.down || w.faults >= 2 || w.inst[i].local {
+				if w.down || w.faults >= 2 || w.inst[i].local || w.flushPending {
 					return
 				}
 				w.allowN(i, n, false, fl)
@@ -640,6 +673,7 @@ func TestVerifC03TokenOutageReal(t *testing.T) {
 			}
 			e.installPreHook()
 			e.closed.Store(false)
+			e.reset()
 		}
 		e.mr.FlushAll()
 		e.pad(300)
@@ -665,7 +699,9 @@ func TestVerifC03TokenOutageReal(t *testing.T) {
 		before, after := drawOps("before", 1, 6), drawOps("after", 2, 8)
 		during := make([][]op, cycles)
 		between := make([][]op, cycles)
+		comesBack := make([]int, cycles) // 0 same server, 1 scripts lost, 2 scripts and data lost
 		for c := range during {
+			comesBack[c] = rapid.SampledFrom([]int{0, 1, 1, 2}).Draw(t, "comesBack")
 			during[c] = drawOps("during", 2, 8)
 			// little or nothing between two outages: the next one starts well before the
 			// local bucket would have refilled
@@ -694,6 +730,10 @@ func TestVerifC03TokenOutageReal(t *testing.T) {
 				e.closed.Store(false)
 				w.down = false
 				w.logf(" RESTART")
+				if comesBack[c] > 0 {
+					// a restarted Redis has an empty script cache (miniredis keeps it over Restart)
+					w.loseServer(comesBack[c] == 2)
+				}
 				w.waitAlive(w.all())
 				if c < cycles-1 {
 					run(between[c])
